@@ -8,6 +8,7 @@ import (
 	"bytes"
 	"encoding/binary"
 	"fmt"
+	square "github.com/celestiaorg/go-square/v2"
 	"strconv"
 	"strings"
 
@@ -290,6 +291,27 @@ func genC10(c *Ctx) {
 		c.add("speccompact", hx(ns), joinHexList(txs))
 		c.add("speccompactix", hx(ns), joinHexList(txs))
 	}
+	// the shares the builder emits into SQUARES (blobs of several namespaces, many per transaction, more than 12 in
+	// all): byte-identical to the specified layout written by the independent encoder
+	for i := 0; i < 25*c.scale; i++ {
+		forceManyBlobs = i%4 == 0
+		s := randSquareCase(c, r, true, false)
+		forceManyBlobs = false
+		kept, pfbs := refKeep(rawsOf(s.txs), s.max, s.thr)
+		var list [][]byte
+		list = append(list, kept...)
+		for _, p := range pfbs {
+			list = append(list, p.raw)
+		}
+		sq, err := square.Construct(list, s.max, s.thr)
+		wit := map[string]any{"case": s.shape()}
+		if !c.check(err == nil, "Construct", "error", wit) {
+			continue
+		}
+		c.check(eqShares(refLayout(kept, pfbs, s.thr), sq), "Construct", "shares of the square differ from the specified encoding", wit)
+		c.count("square_vs_specified_layout")
+		c.goOnly++
+	}
 	// a streaming caller that REUSES one 29-byte buffer for the namespaces of consecutive blobs: each blob's
 	// namespace is a view of that buffer, and the buffer already holds the next namespace when the padding
 	// behind the previous blob is requested (the order Builder.Export uses: padding first, next blob after)
@@ -472,6 +494,17 @@ func compactTxList(c *Ctx, r *Rng, k int) [][]byte {
 			if l >= 128 {
 				l = room - 2
 			}
+			if l < 1 {
+				l = 1
+			}
+		case 3:
+			// start in the (partly filled) current share, cross one or two share boundaries, and end exactly on
+			// the last byte of a later share - or one byte before / after it
+			room := 474 - off
+			if off >= 474 {
+				room = 478 - (off-474)%478
+			}
+			l = room + 478*(1+r.Intn(2)) - 2 + r.Intn(3) - 1
 			if l < 1 {
 				l = 1
 			}
@@ -1072,8 +1105,13 @@ func genC11(c *Ctx) {
 			txs = txs[:6]
 		}
 		css := share.NewCompactShareSplitter(nsOf(ns), 0)
-		for _, t := range txs {
+		for k, t := range txs {
 			_ = css.WriteTx(t)
+			if i%3 == 1 && (k+i)%2 == 0 {
+				// an export in the middle of the history (the pending share may hold only the tail of a
+				// transaction): what is exported at the end must be the same sequence
+				_, _ = css.Export()
+			}
 		}
 		shs, err := css.Export()
 		if err != nil || len(shs) == 0 {
